@@ -357,7 +357,6 @@ func tcpVehicle(o *common.Opts, nInputs int, report func(witness)) (sent int, se
 		return 0, 0, "server binary not available"
 	}
 	r := rand.New(rand.NewSource(o.Seed))
-	inproc.Setup(4, 1, filepath.Join(o.Work, "log"))
 	names := inproc.Commands()
 	sort.Strings(names)
 	var pool [][]string
@@ -502,7 +501,6 @@ func clusterVehicle(o *common.Opts, nInputs int, report func(witness)) (sent int
 		return 0, 0, "server binary not available"
 	}
 	r := rand.New(rand.NewSource(o.Seed + 77))
-	inproc.Setup(4, 1, filepath.Join(o.Work, "log"))
 	names := inproc.Commands()
 	sort.Strings(names)
 	type input struct {
@@ -904,28 +902,29 @@ func main() {
 			}
 		}
 	}
-	tcpSent, tcpServers, tcpNote := tcpVehicle(o, o.Pick(2000, 60000), func(w witness) {
-		if _, ok := bySig[w.Sig]; !ok {
-			bySig[w.Sig] = w
-		}
-	})
-	clSent, clNodes, clNote := clusterVehicle(o, o.Pick(500, 12000), func(w witness) {
+	// the three process-level vehicles wait on sockets most of the time: they run side by side
+	inproc.Setup(4, 1, filepath.Join(o.Work, "log")) // once, for the command table they enumerate
+	addWit := func(w witness) {
 		sigMu.Lock()
 		defer sigMu.Unlock()
 		if _, ok := bySig[w.Sig]; !ok {
 			bySig[w.Sig] = w
 		}
-	})
+	}
+	var tcpSent, tcpServers, clSent, clNodes, mbDone int
+	var tcpNote, clNote, mbNote string
+	var vwg sync.WaitGroup
+	vwg.Add(3)
+	go func() { defer vwg.Done(); tcpSent, tcpServers, tcpNote = tcpVehicle(o, o.Pick(2000, 60000), addWit) }()
+	go func() { defer vwg.Done(); clSent, clNodes, clNote = clusterVehicle(o, o.Pick(500, 12000), addWit) }()
+	go func() {
+		defer vwg.Done()
+		mbDone, mbNote = membershipVehicle(o, o.Pick(6, len(hostileMembership)), addWit)
+	}()
+	vwg.Wait()
 	if clNote != "" {
 		tcpNote += " cluster vehicle: " + clNote
 	}
-	mbDone, mbNote := membershipVehicle(o, o.Pick(6, len(hostileMembership)), func(w witness) {
-		sigMu.Lock()
-		defer sigMu.Unlock()
-		if _, ok := bySig[w.Sig]; !ok {
-			bySig[w.Sig] = w
-		}
-	})
 	if mbNote != "" {
 		tcpNote += " membership vehicle: " + mbNote
 	}
